@@ -23,11 +23,15 @@ PEER = {
     'abort2': rc.enc_abort(2, 6),
     'unk': rc.enc_pdu(0x0B, b'\x01\x02\x03\x04'),
     'unk0': rc.enc_pdu(0x00, b''),
+    # a P-DATA-TF whose last command fragment cannot be decoded as a command set: where P-DATA
+    # is expected (Sta6, Sta7) the provider treats it as an invalid PDU, elsewhere it is just
+    # a P-DATA-TF PDU
+    'garb': rc.enc_pdata([(1, 3, b'\x07\x00junk-junk-junk')]),
 }
 PEER_EVENT = {'rq': 'Evt6', 'ac': 'Evt3', 'rj': 'Evt4', 'rj2': 'Evt4', 'data': 'Evt10',
               'data2': 'Evt10', 'part': 'Evt10', 'rest': 'Evt10', 'relrq': 'Evt12',
               'relrp': 'Evt13', 'abort': 'Evt16', 'abort2': 'Evt16', 'unk': 'Evt19',
-              'unk0': 'Evt19'}
+              'unk0': 'Evt19', 'garb': 'Evt10'}
 
 # user primitives: name -> (event, builder of library object, reference encoding of what must
 # appear on the wire when the action says "send the primitive")
